@@ -7,12 +7,14 @@ import (
 	"fmt"
 	"math"
 	"math/big"
+	"pgregory.net/rapid"
 	"regexp"
 	"sort"
 	"strconv"
 	"strings"
 	"testing"
 	"unicode/utf8"
+	"verif/harness/lib/refproj"
 
 	"verif/harness/lib/refbench"
 	"verif/harness/lib/vcase"
@@ -591,7 +593,21 @@ func keysOf(m map[int]bool) []int {
 	return ks
 }
 
-func TestC16TextCSV(t *testing.T) { vcase.Run(t, "C16", "textcsv", genStatCase, c16TextCSV) }
+// c16Gen is the shared benchstat generator plus, in one case in six, the whole file
+// configuration on the column axis next to another field (the text/CSV comparison needs no
+// reference pipeline, so it can use column keys the reference does not model).
+func c16Gen(t *rapid.T) statCase {
+	st := genStatCase(t)
+	if vcase.OneIn(t, 6, "configaxis") {
+		st.Table = rapid.SampledFrom([]refproj.Expr{{}, {{Key: "goos"}}, {{Key: "pkg"}}}).Draw(t, "cfgtable")
+		st.Col = rapid.SampledFrom([]refproj.Expr{
+			{{Key: ".config"}, {Key: ".file"}}, {{Key: ".config"}, {Key: "/size"}}, {{Key: ".file"}, {Key: ".config"}}, {{Key: ".config"}},
+		}).Draw(t, "cfgcol")
+	}
+	return st
+}
+
+func TestC16TextCSV(t *testing.T) { vcase.Run(t, "C16", "textcsv", c16Gen, c16TextCSV) }
 
 // sheetCol names a 0-based column the way spreadsheets do (A..Z, AA..).
 func sheetCol(i int) string {
